@@ -285,7 +285,14 @@ type muxObs struct {
 	drainErr string
 }
 
-func (r *muxRig) runCase(stream []byte, evs []ev, sizes []int, drain bool) (o muxObs, panicked string) {
+// watchdog budgets of the scripted run: the scripted connection never blocks, so a wait only
+// ends by its event; an expired budget is re-tried alone on a fresh multiplexer with the long one
+const (
+	muxBudget     = 60 * time.Second
+	muxLongBudget = 3 * time.Minute
+)
+
+func (r *muxRig) runCase(stream []byte, evs []ev, sizes []int, drain bool, budget time.Duration) (o muxObs, panicked string) {
 	defer func() {
 		if x := recover(); x != nil {
 			panicked = fmt.Sprint(x)
@@ -294,7 +301,7 @@ func (r *muxRig) runCase(stream []byte, evs []ev, sizes []int, drain bool) (o mu
 	fc := newFake(stream, evs)
 	select {
 	case r.root.ch <- fc:
-	case <-time.After(30 * time.Second):
+	case <-time.After(budget):
 		// Serve no longer accepts (it stopped after an unmatched connection?)
 		o.route = "stuck"
 		return
@@ -305,7 +312,7 @@ func (r *muxRig) runCase(stream []byte, evs []ev, sizes []int, drain bool) (o mu
 		o.route = got.svc
 	case <-fc.closeCh:
 		o.route = "closed"
-	case <-time.After(30 * time.Second):
+	case <-time.After(budget):
 		// neither handed to a service nor closed (generous watchdog: the scripted connection never blocks)
 		o.route = "stuck"
 		return
@@ -644,46 +651,246 @@ func run(c *Ctx) {
 	}
 }
 
-// runLoopback: a few connections through the real listener.New on a loopback TCP port
-// (covers New / net.Listen / the kernel path; segmentation is only sampled here).
-func runLoopback(c *Ctx) {
+// ---------------------------------------------------------------- loopback TCP
+//
+// A few connections through the real listener.New on a loopback TCP port (covers New /
+// net.Listen / the kernel path; segmentation is only sampled here).
+//
+// No verdict here depends on how fast anything is scheduled:
+//   - the stub services report per connection (keyed by the client's address): one event
+//     when they accept it and one, with everything they read, BEFORE they close it.  So
+//     when the client sees its connection end, a report - if the connection reached a
+//     service at all - is already queued; "no report and the connection ended" is the
+//     event "closed by the multiplexer", not the expiry of a grace period;
+//   - every wait is for one of those events; the budgets only bound a wait for something
+//     that never happens (first lbBudget, then the case is run again alone with
+//     lbLongBudget; only a connection that is still neither delivered nor closed after
+//     that is reported, as a stable wrong state);
+//   - the sniff time-out of the main listener is so long that it never fires; the
+//     listener with the short time-out is only used for connections that must be closed
+//     whenever the time-out fires (silence, or a fragment that is no method name).
+
+const (
+	lbBudget     = 60 * time.Second
+	lbLongBudget = 5 * time.Minute
+	lbNever      = 30 * time.Minute
+)
+
+type lbEvent struct {
+	svc   string
+	data  []byte
+	final bool
+}
+
+type lbHub struct {
+	mu sync.Mutex
+	ch map[string]chan lbEvent
+}
+
+func (h *lbHub) get(peer string) chan lbEvent {
+	h.mu.Lock()
+	defer h.mu.Unlock()
+	if h.ch == nil {
+		h.ch = map[string]chan lbEvent{}
+	}
+	c, ok := h.ch[peer]
+	if !ok {
+		c = make(chan lbEvent, 16)
+		h.ch[peer] = c
+	}
+	return c
+}
+
+func (h *lbHub) drop(peer string) {
+	h.mu.Lock()
+	delete(h.ch, peer)
+	h.mu.Unlock()
+}
+
+// put never blocks the stub: a channel that is full (more than 16 events for one
+// connection cannot happen with two stubs) drops the event
+func put(ch chan lbEvent, e lbEvent) {
+	select {
+	case ch <- e:
+	default:
+	}
+}
+
+func (h *lbHub) stub(name string, ln net.Listener) {
+	for {
+		conn, err := ln.Accept()
+		if err != nil {
+			return
+		}
+		ch := h.get(conn.RemoteAddr().String())
+		put(ch, lbEvent{svc: name})
+		go func() {
+			buf := make([]byte, 0, 4096)
+			tmp := make([]byte, 1+len(name)) // odd read size
+			_ = conn.SetReadDeadline(time.Now().Add(lbNever))
+			for {
+				n, err := conn.Read(tmp)
+				buf = append(buf, tmp[:n]...)
+				if err != nil || len(buf) > 1<<20 {
+					break
+				}
+			}
+			put(ch, lbEvent{svc: name, data: buf, final: true}) // before Close, see above
+			conn.Close()
+		}()
+	}
+}
+
+type lbRig struct {
+	l   *listener.Listener
+	hub *lbHub
+}
+
+func newLbRig(sniff time.Duration) (*lbRig, error) {
 	l, err := listener.New("127.0.0.1:0", nil)
+	if err != nil {
+		return nil, err
+	}
+	l.SetReadTimeout(sniff)
+	r := &lbRig{l: l, hub: &lbHub{}}
+	// service.listen's order: RTSP before HTTP
+	go r.hub.stub("rtsp", l.Match(rtsp.MatchRTSP()))
+	go r.hub.stub("http", l.Match(listener.MatchHTTP()))
+	go l.Serve()
+	return r, nil
+}
+
+type lbCase struct {
+	raw     string // first line (+ headers)
+	payload []byte
+	cut     int  // the client writes payload[:cut], pauses, writes the rest
+	hold    bool // the client keeps its write side open and stays silent after the payload
+	want    string
+}
+
+type lbOutcome struct {
+	route   string // rtsp | http | closed | none
+	data    []byte
+	expired bool   // the budget ran out: nothing can be said
+	extra   string // delivered twice / to both
+	note    string
+}
+
+// run one connection; every wait is for an event (see above)
+func (r *lbRig) run(k lbCase, budget time.Duration) (o lbOutcome) {
+	conn, err := net.DialTimeout("tcp", r.l.Addr().String(), budget)
+	if err != nil {
+		return lbOutcome{expired: true, note: "dial: " + err.Error()}
+	}
+	defer conn.Close()
+	local := conn.LocalAddr().String()
+	ch := r.hub.get(local)
+	defer r.hub.drop(local)
+	closeWrite := func() {
+		if tc, ok := conn.(*net.TCPConn); ok {
+			tc.CloseWrite()
+		}
+	}
+	if k.cut > 0 && k.cut < len(k.payload) {
+		conn.Write(k.payload[:k.cut])
+		time.Sleep(2 * time.Millisecond) // only makes two segments likely; nothing depends on it
+		conn.Write(k.payload[k.cut:])
+	} else if len(k.payload) > 0 {
+		conn.Write(k.payload)
+	}
+	if !k.hold {
+		closeWrite()
+	}
+	// the client side: the connection ends (EOF / reset) when the other side closed it
+	end := make(chan string, 1)
+	go func() {
+		b := make([]byte, 64)
+		_ = conn.SetReadDeadline(time.Now().Add(budget + 30*time.Second))
+		for {
+			_, err := conn.Read(b)
+			if err == nil {
+				continue
+			}
+			if ne, ok := err.(net.Error); ok && ne.Timeout() {
+				end <- "timeout"
+			} else {
+				end <- "ended"
+			}
+			return
+		}
+	}()
+	timer := time.NewTimer(budget)
+	defer timer.Stop()
+	accepted := ""
+	take := func(e lbEvent) (done bool) {
+		if accepted != "" && e.svc != accepted {
+			o.extra = "delivered to " + accepted + " and to " + e.svc
+		}
+		if accepted != "" && !e.final && e.svc == accepted {
+			o.extra = "delivered twice to " + e.svc
+		}
+		accepted = e.svc
+		if e.final {
+			o.route, o.data = e.svc, e.data
+			return true
+		}
+		if k.hold {
+			closeWrite() // delivered although it should not have been: let the stub finish
+		}
+		return false
+	}
+	for {
+		select {
+		case e := <-ch:
+			if take(e) {
+				return o
+			}
+		case kind := <-end:
+			end = nil
+			// whatever a stub had to say about this connection before closing it is queued by now
+			for more := true; more; {
+				select {
+				case e := <-ch:
+					if take(e) {
+						return o
+					}
+				default:
+					more = false
+				}
+			}
+			if accepted != "" {
+				continue // closed under the service's feet: its report follows
+			}
+			if kind == "timeout" {
+				o.expired, o.route = true, "none"
+				return o
+			}
+			o.route = "closed"
+			return o
+		case <-timer.C:
+			o.expired = true
+			o.route = "none"
+			if accepted != "" {
+				o.note = "accepted by " + accepted + " but its reads did not end"
+			}
+			return o
+		}
+	}
+}
+
+func runLoopback(c *Ctx) {
+	mainRig, err := newLbRig(lbNever)
 	if err != nil {
 		c.Note("loopback run skipped: " + err.Error())
 		return
 	}
-	defer l.Close()
-	l.SetReadTimeout(20 * time.Second)
-	type got struct {
-		svc  string
-		data []byte
+	defer mainRig.l.Close()
+	short, err := newLbRig(150 * time.Millisecond)
+	if err != nil {
+		c.Note("loopback run skipped: " + err.Error())
+		return
 	}
-	results := make(chan got, 8)
-	serveStub := func(name string, ln net.Listener) {
-		for {
-			conn, err := ln.Accept()
-			if err != nil {
-				return
-			}
-			go func() {
-				buf := make([]byte, 0, 4096)
-				tmp := make([]byte, 1+len(name)) // odd read size
-				_ = conn.SetReadDeadline(time.Now().Add(30 * time.Second))
-				for {
-					n, err := conn.Read(tmp)
-					buf = append(buf, tmp[:n]...)
-					if err != nil || len(buf) > 1<<20 {
-						break
-					}
-				}
-				conn.Close()
-				results <- got{name, buf}
-			}()
-		}
-	}
-	go serveStub("rtsp", l.Match(rtsp.MatchRTSP()))
-	go serveStub("http", l.Match(listener.MatchHTTP()))
-	go l.Serve()
+	defer short.l.Close()
 	lines := []struct{ line, want string }{
 		{"OPTIONS * RTSP/1.0\r\nCSeq: 1\r\n\r\n", "rtsp"},
 		{"OPTIONS * HTTP/1.1\r\nHost: x\r\n\r\n", "http"},
@@ -696,48 +903,80 @@ func runLoopback(c *Ctx) {
 		{"BREW /pot HTCPCP/1.0\r\n\r\n", "closed"},
 		{"\x16\x03\x01\x02\x00\x01\x00\x01\xfc\x03\x03 tls client hello", "closed"},
 	}
+	type job struct {
+		rig  *lbRig
+		k    lbCase
+		name string
+	}
+	var seq, conc []job
 	for i, lc := range lines {
-		raw := lc.line
-		payload := append([]byte(raw), c.Rng.Bytes(i*37)...)
-		conn, err := net.Dial("tcp", l.Addr().String())
-		if err != nil {
-			c.Note("loopback dial failed: " + err.Error())
-			return
+		payload := append([]byte(lc.line), c.Rng.Bytes(i*37)...)
+		seq = append(seq, job{mainRig, lbCase{raw: lc.line, payload: payload, cut: 1 + c.Rng.Intn(len(lc.line)-1), want: lc.want}, fmt.Sprintf("loopback %d", i)})
+	}
+	// connections that must be closed when the sniff time-out fires: silence, or a fragment
+	// that is not the beginning of any request line (no listed method is a prefix of it)
+	for i, pre := range []string{"", "DESCR", "G", "OPTION", "xyz", "\r\n"} {
+		seq = append(seq, job{short, lbCase{raw: pre, payload: []byte(pre), hold: true, want: "closed"}, fmt.Sprintf("loopback silent %d", i)})
+	}
+	// many connections at once (the multiplexer serves each in its own goroutine)
+	nc := c.Budget(32, 256)
+	for i := 0; i < nc; i++ {
+		lc := lines[c.Rng.Intn(len(lines))]
+		payload := append([]byte(lc.line), c.Rng.Bytes(c.Rng.Intn(3000))...)
+		conc = append(conc, job{mainRig, lbCase{raw: lc.line, payload: payload, cut: 1 + c.Rng.Intn(len(lc.line)-1), want: lc.want}, fmt.Sprintf("loopback concurrent %d", i)})
+	}
+	judge := func(j job, o lbOutcome, mode string) {
+		caseLine := "c19 mux " + Hx(j.k.payload) + " - 4096"
+		if j.k.hold {
+			caseLine = "c19 mux " + Hx(j.k.payload) + " " + evsString(holdEvs(len(j.k.payload))) + " 4,64,16"
 		}
-		cut := 1 + c.Rng.Intn(len(raw)-1)
-		conn.Write(payload[:cut])
-		time.Sleep(2 * time.Millisecond)
-		conn.Write(payload[cut:])
-		if tc, ok := conn.(*net.TCPConn); ok {
-			tc.CloseWrite()
+		c.Eval(j.name, true)
+		c.Count("loopback-" + mode + "-route-" + o.route)
+		detail := fmt.Sprintf("loopback TCP through listener.New (%s); client wrote %q", mode, trunc(j.k.payload, 60))
+		switch {
+		case o.expired:
+			c.Find(Finding{Kind: "oracle", Class: "connection-neither-delivered-nor-closed", Case: caseLine, Impl: "after " + lbLongBudget.String() + ": no service finished reading the connection and it was not closed " + o.note, Spec: j.k.want, Detail: detail})
+		case o.route != j.k.want:
+			c.Find(Finding{Kind: "oracle", Class: fmt.Sprintf("route-%s-expected-%s", o.route, j.k.want), Case: caseLine, Impl: o.route, Spec: j.k.want, Detail: detail})
+		case o.route != "closed" && !bytes.Equal(o.data, j.k.payload):
+			c.Find(Finding{Kind: "oracle", Class: "service-bytes-lost-or-altered", Case: caseLine, Impl: fmt.Sprintf("%d bytes", len(o.data)), Spec: fmt.Sprintf("%d bytes", len(j.k.payload)), Detail: detail})
 		}
-		route, data := "closed", []byte(nil)
-		done := make(chan struct{})
-		go func() { // a closed connection shows as EOF / reset on the client side
-			b := make([]byte, 16)
-			_ = conn.SetReadDeadline(time.Now().Add(40 * time.Second))
-			conn.Read(b)
-			close(done)
-		}()
-		select {
-		case g := <-results:
-			route, data = g.svc, g.data
-		case <-done:
-			select {
-			case g := <-results:
-				route, data = g.svc, g.data
-			case <-time.After(200 * time.Millisecond):
-			}
-		}
-		conn.Close()
-		c.Eval(fmt.Sprintf("loopback %d", i), true)
-		c.Count("loopback-route-" + route)
-		if route != lc.want {
-			c.Find(Finding{Kind: "oracle", Class: fmt.Sprintf("route-%s-expected-%s", route, lc.want), Case: "c19 mux " + Hx(payload) + " - 4096", Impl: route, Spec: lc.want, Detail: "loopback TCP through listener.New; first line " + fmt.Sprintf("%q", raw)})
-		} else if route != "closed" && !bytes.Equal(data, payload) {
-			c.Find(Finding{Kind: "oracle", Class: "service-bytes-lost-or-altered", Case: "c19 mux " + Hx(payload) + " - 4096", Impl: fmt.Sprintf("%d bytes", len(data)), Spec: fmt.Sprintf("%d bytes", len(payload)), Detail: "loopback TCP through listener.New"})
+		if o.extra != "" {
+			c.Find(Finding{Kind: "oracle", Class: "not-exactly-one-service", Case: caseLine, Impl: o.extra, Spec: "each connection reaches exactly one service or is closed", Detail: detail})
 		}
 	}
+	// an expired budget says nothing: the case is run again, alone, with the long budget
+	again := func(j job, o lbOutcome) lbOutcome {
+		if !o.expired {
+			return o
+		}
+		c.Count("loopback-rerun-with-long-budget")
+		return j.rig.run(j.k, lbLongBudget)
+	}
+	for _, j := range seq {
+		judge(j, again(j, j.rig.run(j.k, lbBudget)), "sequential")
+	}
+	outs := make([]lbOutcome, len(conc))
+	var wg sync.WaitGroup
+	for i := range conc {
+		wg.Add(1)
+		go func(i int) {
+			defer wg.Done()
+			outs[i] = conc[i].rig.run(conc[i].k, lbBudget)
+		}(i)
+	}
+	wg.Wait()
+	for i, j := range conc {
+		judge(j, again(j, outs[i]), "concurrent")
+	}
+}
+
+// the scripted equivalent of "the client wrote n bytes and then stayed silent"
+func holdEvs(n int) []ev {
+	if n == 0 {
+		return []ev{{kind: 'f', e: 't'}}
+	}
+	return []ev{{kind: 'd', n: n}, {kind: 'f', e: 't'}}
 }
 
 // ---------------------------------------------------------------- mux
@@ -820,9 +1059,18 @@ func runMux(c *Ctx) {
 		line := lines[2*i]
 		m := KV(outs[2*i])
 		cl := KV(outs[2*i+1])
-		o, pan := rig.runCase(k.stream, k.evs, k.sizes, k.clean)
+		o, pan := rig.runCase(k.stream, k.evs, k.sizes, k.clean, muxBudget)
 		c.Eval(line, len(k.stream) > 0)
 		if o.route == "stuck" {
+			// an expired watchdog alone says nothing: once more, alone, on a fresh multiplexer, long budget
+			c.Count("mux-rerun-with-long-budget")
+			rig.root.Close()
+			rig = newRig()
+			o, pan = rig.runCase(k.stream, k.evs, k.sizes, k.clean, muxLongBudget)
+		}
+		if o.route == "stuck" {
+			rig.root.Close()
+			rig = newRig()
 			c.Find(Finding{Kind: "oracle", Class: "connection-neither-delivered-nor-closed", Case: line, Impl: "no service got the connection and it was not closed", Spec: "exactly one service, or closed"})
 			stuck++
 			if stuck >= 2 {
@@ -874,6 +1122,15 @@ func runMux(c *Ctx) {
 		// ---- specification oracle
 		if k.silent && o.route != "closed" {
 			c.Find(Finding{Kind: "oracle", Class: "silent-connection-not-closed", Case: line, Impl: o.route, Spec: "closed"})
+		}
+		// whatever the peer's segmentation, pauses and failures: a stream that does not begin with
+		// a listed method is not a request line of either protocol, so nobody may get it
+		if pan == "" && !startsWithListed(string(k.stream)) {
+			c.Count("mux-oracle-no-method-at-start")
+			if o.route != "closed" {
+				c.Find(Finding{Kind: "oracle", Class: fmt.Sprintf("route-%s-expected-closed", o.route), Case: line, Impl: o.route, Spec: "closed",
+					Detail: fmt.Sprintf("the stream %q does not begin with a listed method", trunc(k.stream, 40))})
+			}
 		}
 		if k.lc != nil && k.clean && pan == "" {
 			want := cl["spec"]
